@@ -13,9 +13,7 @@ import (
 	"slices"
 
 	"github.com/bronlabs/bron-crypto/pkg/base/algebra"
-	"github.com/bronlabs/bron-crypto/pkg/base/curves/edwards25519"
 	"github.com/bronlabs/bron-crypto/pkg/base/curves/k256"
-	"github.com/bronlabs/bron-crypto/pkg/base/curves/p256"
 	"github.com/bronlabs/bron-crypto/pkg/base/curves/pasta"
 	ds "github.com/bronlabs/bron-crypto/pkg/base/datastructures"
 	"github.com/bronlabs/bron-crypto/pkg/base/datastructures/hashmap"
@@ -269,23 +267,22 @@ func signLindell22(r int) {
 }
 
 func signL22On[GE algebra.PrimeGroupElement[GE, S], S algebra.PrimeFieldElement[S], M schnorrlike.Message](d *l22Desc[GE, S, M], r, vi int) {
-	for pi, np := range policyWindow(len(signPolicies), vi+r) {
-		for qi, q := range quorumCases(np, lim(2, 10), lim(1, 2), lim(3, 99), pi+r+int(seed)) {
-			api := []string{"rounds", "runner"}[(pi+qi+vi+r)%2]
-			msgClass := msgClasses[(pi+qi+r+vi)%len(msgClasses)]
-			if msgClass == "empty" && !d.allowEmpty {
-				msgClass = "short"
-			}
-			comp := fiatshamir.Name
-			if thor && (pi+qi)%7 == 3 && len(q.ids) <= 3 {
-				comp = fischlin.Name
-			}
-			name := fmt.Sprintf("sign:lindell22:%s:%s:%s:%s", d.name, d.g.name, np.Name, q.kind)
-			if !takeCase(name) {
-				continue
-			}
-			l22Line(d, np, keyFor(d.g, np, pi+vi+int(seed)+r+lim(0, qi%2)), q, api, msgClass, comp)
+	for _, it := range planCheap(vi + r) {
+		pi, qi := it.pi, it.qi
+		api := []string{"rounds", "runner"}[(pi+qi+vi+r)%2]
+		msgClass := msgClasses[(pi+qi+r+vi)%len(msgClasses)]
+		if msgClass == "empty" && !d.allowEmpty {
+			msgClass = "short"
 		}
+		comp := fiatshamir.Name
+		if thor && (pi+qi)%7 == 3 && len(it.q.ids) <= 3 {
+			comp = fischlin.Name
+		}
+		name := fmt.Sprintf("sign:lindell22:%s:%s:%s:%s", d.name, d.g.name, it.np.Name, it.q.kind)
+		if !takeCase(name) {
+			continue
+		}
+		l22Line(d, it.np, keyFor(d.g, it.np, it.srcIdx), it.q, api, msgClass, comp)
 	}
 }
 
